@@ -53,10 +53,17 @@ const (
 	OpAClean = 42 // Manager.CleanupStaleAgentRoutes
 	OpATRm   = 45 // AgentTable.RemoveRoute
 
-	OpLookup  = 50 // Manager.Lookup
-	OpDLookup = 51 // Manager.LookupDomain
+	OpLookup  = 50 // Manager.Lookup of an explicit address
+	OpDLookup = 51 // Manager.LookupDomain of an explicit name
 	OpFLookup = 52 // Manager.LookupForward
 	OpALookup = 53 // Manager.LookupAgent
+
+	OpLookupAll  = 54 // Manager.Lookup of every boundary address of every pool network
+	OpDLookupAll = 55 // Manager.LookupDomain of every name derived from every pool string
+	OpFLookupAll = 56 // Manager.LookupForward of every pool string
+	OpALookupAll = 57 // Manager.LookupAgent of every agent index
+	OpLookupB    = 58 // Manager.Lookup of boundary address K of pool network NetIdx
+	OpDLookupD   = 59 // Manager.LookupDomain of derived name K of pool string StrIdx
 )
 
 // Net is a network as the wire decoder (flood.protocolRouteToIPNet) or
@@ -92,6 +99,163 @@ type Op struct {
 	Target string `json:"target,omitempty"`
 	Is16   int    `json:"is16,omitempty"` // lookup address form: 0 = 4 bytes, 1 = 16 bytes, 2 = malformed length
 	Addr   string `json:"addr,omitempty"` // lookup address value, decimal
+	Idx    int    `json:"idx,omitempty"`  // pool index (OpLookupB: network, OpDLookupD: string)
+	K      int    `json:"k,omitempty"`    // which boundary address / derived name
+}
+
+// Pools are the per-history tables that operations refer to by index in the
+// encoding for the model (keeps cases.v small): networks, strings, and large
+// numbers (sequence numbers, explicit lookup addresses).
+type Pools struct {
+	Nets []*Net   `json:"nets"`
+	Strs []string `json:"strs"`
+	Nums []string `json:"nums"`
+}
+
+func (p *Pools) netIdx(n *Net) int {
+	for i, x := range p.Nets {
+		if *x == *n {
+			return i
+		}
+	}
+	p.Nets = append(p.Nets, n)
+	return len(p.Nets) - 1
+}
+func (p *Pools) strIdx(s string) int {
+	for i, x := range p.Strs {
+		if x == s {
+			return i
+		}
+	}
+	p.Strs = append(p.Strs, s)
+	return len(p.Strs) - 1
+}
+func (p *Pools) numIdx(s string) int {
+	for i, x := range p.Nums {
+		if x == s {
+			return i
+		}
+	}
+	p.Nums = append(p.Nums, s)
+	return len(p.Nums) - 1
+}
+
+// BoundaryAddrs lists the lookups on and around the edges of a network
+// (mirrored by Model/RouteTable.v: boundary_addrs).
+func BoundaryAddrs(n *Net) []Op {
+	bits := 32
+	if n.Fam == 6 {
+		bits = 128
+	}
+	ones := n.Ones
+	if ones > bits {
+		ones = bits
+	}
+	ip := bigOf(n.IP)
+	one := big.NewInt(1)
+	host := new(big.Int).Lsh(one, uint(bits-ones))
+	base := new(big.Int).Div(ip, host)
+	base.Mul(base, host)
+	last := new(big.Int).Add(base, host)
+	last.Sub(last, one)
+	max := new(big.Int).Lsh(one, uint(bits))
+	cands := []*big.Int{base, new(big.Int).Add(base, one), last, new(big.Int).Add(last, one)}
+	if base.Sign() > 0 {
+		cands = append(cands, new(big.Int).Sub(base, one))
+	}
+	cands = append(cands, ip)
+	var out []Op
+	for _, v := range cands {
+		if v.Cmp(max) >= 0 {
+			continue
+		}
+		if n.Fam == 4 {
+			out = append(out, Op{Code: OpLookup, Is16: 0, Addr: v.String()})
+			m := new(big.Int).Lsh(big.NewInt(0xffff), 32)
+			out = append(out, Op{Code: OpLookup, Is16: 1, Addr: m.Add(m, v).String()})
+		} else {
+			out = append(out, Op{Code: OpLookup, Is16: 1, Addr: v.String()})
+		}
+	}
+	return out
+}
+
+func asciiUpper(s string) string {
+	b := []byte(s)
+	for i, c := range b {
+		if c >= 'a' && c <= 'z' {
+			b[i] = c - 32
+		}
+	}
+	return string(b)
+}
+
+func asciiTrim(s string) string {
+	sp := func(c byte) bool { return (c >= 9 && c <= 13) || c == 32 }
+	for len(s) > 0 && sp(s[0]) {
+		s = s[1:]
+	}
+	for len(s) > 0 && sp(s[len(s)-1]) {
+		s = s[:len(s)-1]
+	}
+	return s
+}
+
+// DerivedNames lists the domain lookups derived from a pool string (mirrored
+// by Model/RouteTable.v: derived_names).
+func DerivedNames(s string) []string {
+	b := asciiTrim(s)
+	if strings.HasPrefix(b, "*.") {
+		b = b[2:]
+	}
+	return []string{s, b, "a." + b, "B.a." + b, asciiUpper(b), "." + b, b + ".", "x-1." + asciiUpper(b)}
+}
+
+// Expand turns the pool-relative and "all" lookups into explicit lookups.
+func (p *Pools) Expand(op Op) []Op {
+	switch op.Code {
+	case OpLookupAll:
+		var out []Op
+		for _, n := range p.Nets {
+			out = append(out, BoundaryAddrs(n)...)
+		}
+		return out
+	case OpLookupB:
+		if op.Idx < len(p.Nets) {
+			if b := BoundaryAddrs(p.Nets[op.Idx]); op.K < len(b) {
+				return b[op.K : op.K+1]
+			}
+		}
+		return nil
+	case OpDLookupAll:
+		var out []Op
+		for _, s := range p.Strs {
+			for _, n := range DerivedNames(s) {
+				out = append(out, Op{Code: OpDLookup, Name: n})
+			}
+		}
+		return out
+	case OpDLookupD:
+		if op.Idx < len(p.Strs) {
+			if d := DerivedNames(p.Strs[op.Idx]); op.K < len(d) {
+				return []Op{{Code: OpDLookup, Name: d[op.K]}}
+			}
+		}
+		return nil
+	case OpFLookupAll:
+		var out []Op
+		for _, s := range p.Strs {
+			out = append(out, Op{Code: OpFLookup, Name: s})
+		}
+		return out
+	case OpALookupAll:
+		var out []Op
+		for a := 0; a < NAgents; a++ {
+			out = append(out, Op{Code: OpALookup, Agent: a})
+		}
+		return out
+	}
+	return []Op{op}
 }
 
 // NAgents is the size of the agent identifier pool; index 0 is the local agent.
@@ -330,7 +494,7 @@ func (r *Runner) Apply(op Op) uint64 {
 			e := r.cidrEntry(x)
 			r.Last = &e
 		}
-		return r.hashCIDRRoute(x)
+		return foundCode(r.Last)
 	case OpDLookup:
 		r.Last = nil
 		x := m.LookupDomain(op.Name)
@@ -338,7 +502,7 @@ func (r *Runner) Apply(op Op) uint64 {
 			e := r.domainEntry(x)
 			r.Last = &e
 		}
-		return r.hashDomainRoute(x)
+		return foundCode(r.Last)
 	case OpFLookup:
 		r.Last = nil
 		x := m.LookupForward(op.Name)
@@ -346,7 +510,7 @@ func (r *Runner) Apply(op Op) uint64 {
 			e := r.forwardEntry(x)
 			r.Last = &e
 		}
-		return r.hashForwardRoute(x)
+		return foundCode(r.Last)
 	case OpALookup:
 		r.Last = nil
 		x := m.LookupAgent(AgentID(op.Agent))
@@ -354,7 +518,7 @@ func (r *Runner) Apply(op Op) uint64 {
 			e := r.agentEntry(x)
 			r.Last = &e
 		}
-		return r.hashAgentRoute(x)
+		return foundCode(r.Last)
 	}
 	panic(fmt.Sprintf("unknown op %d", op.Code))
 }
@@ -366,20 +530,20 @@ func IsLookup(code int) bool { return code >= 50 }
 
 // Entry is the projection of one stored route (of any of the four tables).
 type Entry struct {
-	Table   string   `json:"t"`   // "cidr" | "dexact" | "dwild" | "fwd" | "agent"
-	Key     string   `json:"key"` // printable grouping key (as observed on the stored route)
-	KeyNums []uint64 `json:"-"`   // numeric form of the key fed to the digest
-	Origin  uint64   `json:"o"`
-	NextHop uint64   `json:"nh"`
-	Metric  uint64   `json:"m"`
-	Seq     uint64   `json:"s"`
-	LastMs  uint64   `json:"last"`
-	Path    []uint64 `json:"path"`
-	Payload []uint64 `json:"-"` // table specific stored data (pattern / target), digest only
+	Table   string     `json:"t"`   // "cidr" | "dexact" | "dwild" | "fwd" | "agent"
+	Key     string     `json:"key"` // printable grouping key (as observed on the stored route)
+	KeyNums []uint64   `json:"-"`   // numeric form of the key fed to the digest
+	Origin  uint64     `json:"o"`
+	NextHop uint64     `json:"nh"`
+	Metric  uint64     `json:"m"`
+	Seq     uint64     `json:"s"`
+	LastMs  uint64     `json:"last"`
+	Path    []uint64   `json:"path"`
+	Payload []uint64   `json:"-"` // table specific stored data (pattern / target), digest only
 	Net     *net.IPNet `json:"-"`
-	Pattern string   `json:"pat,omitempty"`
-	Wild    bool     `json:"wild,omitempty"`
-	Base    string   `json:"base,omitempty"`
+	Pattern string     `json:"pat,omitempty"`
+	Wild    bool       `json:"wild,omitempty"`
+	Base    string     `json:"base,omitempty"`
 }
 
 type Dump struct {
@@ -388,13 +552,30 @@ type Dump struct {
 	NLocal  [4]uint64 // sizes of localRoutes, dynamicRoutes, localDomains, localForwards
 }
 
-func strNums(s string) []uint64 {
-	out := make([]uint64, 0, len(s)+1)
-	out = append(out, uint64(len(s)))
-	for i := 0; i < len(s); i++ {
-		out = append(out, uint64(s[i]))
+// packs packs small numbers (w bits each) little-endian into 63-bit words.
+func packs(w uint, xs []uint64) []uint64 {
+	per := int(63 / w)
+	var out []uint64
+	for i := 0; i < len(xs); i += per {
+		var v uint64
+		end := i + per
+		if end > len(xs) {
+			end = len(xs)
+		}
+		for j := end - 1; j >= i; j-- {
+			v = v<<w | (xs[j] & (1<<w - 1))
+		}
+		out = append(out, v)
 	}
 	return out
+}
+
+func strNums(s string) []uint64 {
+	xs := make([]uint64, len(s))
+	for i := 0; i < len(s); i++ {
+		xs[i] = uint64(s[i])
+	}
+	return append([]uint64{uint64(len(s))}, packs(8, xs)...)
 }
 
 func pathNums(p []identity.AgentID) []uint64 {
@@ -405,11 +586,11 @@ func pathNums(p []identity.AgentID) []uint64 {
 	return out
 }
 
-// netNums projects a stored network: family by byte length, the address split
-// in two 64-bit halves, and the mask as reported by Mask.Size().
+// netNums projects a stored network: family by byte length, the mask as
+// reported by Mask.Size(), and the address in two 64-bit halves.
 func netNums(n *net.IPNet) []uint64 {
 	if n == nil {
-		return []uint64{9, 0, 0, 0, 0}
+		return []uint64{9, 0, 0}
 	}
 	fam := uint64(6)
 	if len(n.IP) == 4 {
@@ -419,7 +600,7 @@ func netNums(n *net.IPNet) []uint64 {
 	lo := new(big.Int).And(v, new(big.Int).SetUint64(^uint64(0))).Uint64()
 	hi := new(big.Int).Rsh(v, 64).Uint64()
 	ones, bits := n.Mask.Size()
-	return []uint64{fam, hi, lo, uint64(ones), uint64(bits)}
+	return []uint64{fam + 8*uint64(ones) + 4096*uint64(bits), hi, lo}
 }
 
 func asciiLower(s string) string {
@@ -554,8 +735,8 @@ func fin(h uint64) uint64 {
 }
 
 func entryNums(e Entry) []uint64 {
-	out := []uint64{e.Origin, e.NextHop, e.Metric, e.Seq, e.LastMs, uint64(len(e.Path))}
-	out = append(out, e.Path...)
+	out := []uint64{e.Origin + 128*e.NextHop + 16384*e.Metric + (e.LastMs&0xffffffff)<<30, e.Seq, uint64(len(e.Path))}
+	out = append(out, packs(7, e.Path)...)
 	out = append(out, e.Payload...)
 	return out
 }
@@ -587,56 +768,50 @@ func (d *Dump) Hash() uint64 {
 	return fin(h)
 }
 
-func routeHash(tag uint64, key []uint64, e Entry) uint64 {
-	h := mix(29, tag)
-	h = mixAll(h, key)
-	h = mixAll(h, entryNums(e))
-	return fin(h) | 1 // never 0: 0 means "no route"
+func byteSum(s string) uint64 {
+	var n uint64
+	for i := 0; i < len(s); i++ {
+		n += uint64(s[i])
+	}
+	return n
 }
 
-func (r *Runner) hashCIDRRoute(x *routing.Route) uint64 {
-	if x == nil {
+// foundCode is the (cheap) digest of a lookup result; 0 = no route.
+func foundCode(e *Entry) uint64 {
+	if e == nil {
 		return 0
 	}
-	e := r.cidrEntry(x)
-	return routeHash(1, e.KeyNums, e)
+	c := e.Origin + 128*e.NextHop + 16384*e.Metric + (e.Seq&0xffff)<<30 + (e.LastMs&0xffff)<<46
+	var tag, k uint64
+	switch e.Table {
+	case "cidr":
+		tag = 1
+		k = e.KeyNums[0] + (e.KeyNums[2]&0xffffffff)<<20
+	case "dexact":
+		tag = 2
+		k = 2*uint64(len(e.Pattern)) + 1024*byteSum(e.Pattern)
+	case "dwild":
+		tag = 2
+		k = 1 + 2*uint64(len(e.Pattern)) + 1024*byteSum(e.Pattern)
+	case "fwd":
+		tag = 4
+		k = uint64(len(e.Key)) + 1024*byteSum(e.Key) + byteSum(e.Pattern)<<30
+	case "agent":
+		tag = 5
+		k = e.KeyNums[0]
+	}
+	return mix(mix(tag, c), k) | 1
 }
-func (r *Runner) hashDomainRoute(x *routing.DomainRoute) uint64 {
-	if x == nil {
-		return 0
-	}
-	e := r.domainEntry(x)
-	tag := uint64(2)
-	if x.IsWildcard {
-		tag = 3
-	}
-	return routeHash(tag, e.KeyNums, e)
-}
-func (r *Runner) hashForwardRoute(x *routing.ForwardRoute) uint64 {
-	if x == nil {
-		return 0
-	}
-	e := r.forwardEntry(x)
-	return routeHash(4, e.KeyNums, e)
-}
-func (r *Runner) hashAgentRoute(x *routing.AgentRoute) uint64 {
-	if x == nil {
-		return 0
-	}
-	e := r.agentEntry(x)
-	return routeHash(5, e.KeyNums, e)
+
+// ObsOf combines the digest of the lookups since the previous observation,
+// the result of the operation and the state digest into one 32-bit value.
+func ObsOf(ld, ret, sh uint64) uint64 {
+	return fin(mix(mix(mix(11, ld), ret), sh)) & 0xffffffff
 }
 
 // ---------------------------------------------------------------------------
-// Encoding of operations for cases.v: one list of N per op.
-
-func encStr(s string) []string {
-	out := []string{fmt.Sprint(len(s))}
-	for i := 0; i < len(s); i++ {
-		out = append(out, fmt.Sprint(s[i]))
-	}
-	return out
-}
+// Encoding of operations for cases.v: one list of N per op; networks,
+// strings and large numbers are pool indices.
 
 func encPath(p []int) []string {
 	out := []string{fmt.Sprint(len(p))}
@@ -646,85 +821,78 @@ func encPath(p []int) []string {
 	return out
 }
 
-func encNet(n *Net) []string {
-	return []string{fmt.Sprint(n.Fam), n.IP, fmt.Sprint(n.Ones)}
-}
-
-// Encode renders one op as the numbers decode_op expects.
-func Encode(op Op) []string {
+// Encode renders one op as the numbers decode_op expects, extending the
+// pools as needed.
+func (p *Pools) Encode(op Op) []string {
 	u := func(v any) string { return fmt.Sprint(v) }
 	out := []string{u(op.Code)}
 	add := func(xs ...string) { out = append(out, xs...) }
+	net := func(n *Net) string { return u(p.netIdx(n)) }
+	str := func(s string) string { return u(p.strIdx(s)) }
+	seq := func(v uint64) string { return u(p.numIdx(u(v))) }
 	switch op.Code {
 	case OpAdv:
-		add(u(op.Peer), u(op.Origin), u(op.Seq))
+		add(u(op.Peer), u(op.Origin), seq(op.Seq))
 		add(encPath(op.Path)...)
 		add(u(len(op.Ents)))
 		for _, e := range op.Ents {
-			add(encNet(e.Net)...)
-			add(u(e.Metric))
+			add(net(e.Net), u(e.Metric))
 		}
 	case OpWd:
 		add(u(op.Origin), u(len(op.Ents)))
 		for _, e := range op.Ents {
-			add(encNet(e.Net)...)
+			add(net(e.Net))
 		}
 	case OpDisc, OpDDisc, OpFDisc, OpADisc:
 		add(u(op.Peer))
 	case OpClean, OpDClean, OpFClean, OpAClean, OpTick:
 		add(u(op.Ms))
 	case OpAddLocal, OpAddDyn:
-		add(encNet(op.Net)...)
-		add(u(op.Metric))
+		add(net(op.Net), u(op.Metric))
 	case OpRmLocal, OpRmDyn:
-		add(encNet(op.Net)...)
+		add(net(op.Net))
 	case OpTAdd:
-		add(u(op.Peer), u(op.Origin), u(op.Seq), u(op.Metric))
+		add(u(op.Peer), u(op.Origin), seq(op.Seq), u(op.Metric))
 		add(encPath(op.Path)...)
-		add(encNet(op.Net)...)
+		add(net(op.Net))
 	case OpTRm:
-		add(u(op.Origin))
-		add(encNet(op.Net)...)
+		add(u(op.Origin), net(op.Net))
 	case OpDAdv:
-		add(u(op.Peer), u(op.Origin), u(op.Seq))
+		add(u(op.Peer), u(op.Origin), seq(op.Seq))
 		add(encPath(op.Path)...)
 		add(u(len(op.Ents)))
 		for _, e := range op.Ents {
-			add(u(e.Metric))
-			add(encStr(e.Name)...)
+			add(u(e.Metric), str(e.Name))
 		}
 	case OpDAddLocal:
-		add(u(op.Metric))
-		add(encStr(op.Name)...)
+		add(u(op.Metric), str(op.Name))
 	case OpDRmLocal, OpFRmLocal:
-		add(encStr(op.Name)...)
+		add(str(op.Name))
 	case OpDTRm, OpFTRm:
-		add(u(op.Origin))
-		add(encStr(op.Name)...)
+		add(u(op.Origin), str(op.Name))
 	case OpFAdv:
-		add(u(op.Peer), u(op.Origin), u(op.Seq))
+		add(u(op.Peer), u(op.Origin), seq(op.Seq))
 		add(encPath(op.Path)...)
 		add(u(len(op.Ents)))
 		for _, e := range op.Ents {
-			add(u(e.Metric))
-			add(encStr(e.Name)...)
-			add(encStr(e.Target)...)
+			add(u(e.Metric), str(e.Name), str(e.Target))
 		}
 	case OpFAddLocal:
-		add(u(op.Metric))
-		add(encStr(op.Name)...)
-		add(encStr(op.Target)...)
+		add(u(op.Metric), str(op.Name), str(op.Target))
 	case OpAAdv:
-		add(u(op.Peer), u(op.Origin), u(op.Seq), u(op.Agent), u(op.Metric))
+		add(u(op.Peer), u(op.Origin), seq(op.Seq), u(op.Agent), u(op.Metric))
 		add(encPath(op.Path)...)
 	case OpATRm:
 		add(u(op.Agent), u(op.Origin))
 	case OpLookup:
-		add(u(op.Is16), op.Addr)
+		add(u(op.Is16), u(p.numIdx(op.Addr)))
 	case OpDLookup, OpFLookup:
-		add(encStr(op.Name)...)
+		add(str(op.Name))
 	case OpALookup:
 		add(u(op.Agent))
+	case OpLookupAll, OpDLookupAll, OpFLookupAll, OpALookupAll:
+	case OpLookupB, OpDLookupD:
+		add(u(op.Idx), u(op.K))
 	default:
 		panic("encode: unknown op")
 	}
